@@ -690,6 +690,34 @@ func enumerate(r *vk.Run) {
 		}
 		cases = dedupCases(cases)
 		runCases(r, "SetDoorPasscodes/positions-and-ids", cases)
+
+		// list lengths: every length 0..1030 and the lengths around 2^12 .. 2^17 (all codes valid and
+		// distinct; and with every code beyond the fourth above 999999): only the length's first four count
+		long := []Case{}
+		lengths := []int{}
+		for n := 0; n <= 1030; n++ {
+			lengths = append(lengths, n)
+		}
+		for sh := 12; sh <= 17; sh++ {
+			for d := -2; d <= 4; d++ {
+				lengths = append(lengths, 1<<sh+d)
+			}
+		}
+		for _, n := range lengths {
+			for _, beyond := range []int64{0, 1000000} {
+				l := make([]int64, 1+n)
+				l[0] = int64(1 + n%4)
+				for i := 0; i < n; i++ {
+					l[1+i] = int64(100001 + i%800000)
+					if i >= 4 && beyond != 0 {
+						l[1+i] = beyond + int64(i)
+					}
+				}
+				long = append(long, Case{Op: "SetDoorPasscodes", ID: baseID, N: l})
+			}
+		}
+		r.Set("passcode_list_lengths", len(lengths))
+		runCases(r, "SetDoorPasscodes/list-lengths", long)
 	}
 
 	// (8) SetTimeProfile
@@ -1034,7 +1062,7 @@ func main() {
 
 	rule := "every listed argument tuple of all 31 controller-addressed operations (and GetDevices) through the public API with a recording fake driver: " +
 		"controller ids over the structured 32-bit alphabet x 3 client configurations; PutCard card numbers (structured set) x all format lists of length <= 2 over {any, Wiegand-26, CardFormat(7)} x PIN boundaries, every format list of length 1..3 held in one caller-side slice across two consecutive calls x 36 ordered number pairs, every PIN 0..1000100; " +
-		"SetListener address classes x ports (all 65536 ports for 5 addresses); SetAddress byte-slice forms^3, lengths 0..20, every octet; SetDoorPasscodes doors 0..255 x all passcode lists of length 0..6 over 5 values; " +
+		"SetListener address classes x ports (all 65536 ports for 5 addresses); SetAddress byte-slice forms^3, lengths 0..20, every octet; SetDoorPasscodes doors 0..255 x all passcode lists of length 0..6 over 5 values, passcode lists of every length 0..1030 and around 2^12..2^17; " +
 		"SetTimeProfile dates x segment presence, all 1441^2 (start,end) pairs in each segment position, all id x linked pairs; every other operation over its boundary alphabet. " +
 		"distinct = distinct (operation, configuration, controller id, argument tuple) combinations (hash set over the table-built families; an index-generated sweep of one operation is injective by construction and contributes its size minus the number of table-built cases of that operation minus a stated bound on its overlap with the other sweeps of that operation)"
 	if r.Thorough() {
